@@ -46,6 +46,10 @@ func propC03(w *World, r *Report) {
 	RunMapdet(w, e, r, "mapdet", fns)
 	RunSortedBeforeIndexed(w, r, fns)
 	RunBigEndian(w, r, func(p string) bool { return p == modPath+"/header" })
+	for _, a := range boundsAssumptions {
+		r.Assumes(a)
+	}
+	RunLosslessFor(w, r, "C03", newBoundsRun(w))
 }
 
 func callsNamed(fn *ssa.Function, name string) []*ssa.Call {
